@@ -185,8 +185,8 @@ def handle (fn : String) (a : Json) : R Json := do
     let r ← recOf (← field a "record")
     let fits ← (← arrF a "fits").mapM bool
     -- the formatter asks `fits` about the candidate of each stage it reaches, in order
-    let r1 := if r.requestData then shedRequestData r else r
-    let r2 := if r1.claims.isSome then shedClaims r1 else r1
+    let r1 := stage1 r
+    let r2 := stage2 r
     let answers : List (Record × Bool) :=
       let q0 := [(r, fits.getD 0 false)]
       let q1 := if r.requestData then [(r1, fits.getD q0.length false)] else []
